@@ -60,6 +60,35 @@ def _alphabet(v, d, model):
         ops.append({"op": "find_list", "l": L, "s": srch, "m": "find"})
         ops.append({"op": "find_partial", "l": L, "s": srch})
         ops.append({"op": "sid_call", "from": {"s": L[0]}, "m": "match", "search": srch})
+    # an or-search / alias search followed by each of its alternatives alone (results of the unfolders
+    # are lists held by caches: extending one in place pollutes the answer for the first alternative)
+    related = []
+    for _ in range(4):
+        label, fields = rng.choice(leaves)
+        segs = [val for _, val in fields]
+        i = rng.randrange(1, len(segs))
+        key = fields[i][0]
+        pool = [w for w in (v.closed.get(key) or gen.NAMES) if w != segs[i] and w not in v.aliases]
+        alts = [segs[i]] + rng.sample(pool, min(len(pool), rng.randint(1, 2)))
+        rng.shuffle(alts)
+        for j in range(i + 1, len(segs)):
+            if rng.random() < 0.4:
+                segs[j] = "*"
+        variants = [",".join(alts)] + alts
+        if v.aliases and i == len(segs) - 1:
+            al = rng.choice(sorted(v.aliases.keys()))
+            variants = [al] + list(v.aliases[al])
+        group = []
+        for val in variants:
+            srch = "/".join(segs[:i] + [val] + segs[i + 1:])
+            group.append([{"op": "unfold_search", "s": srch},
+                          {"op": "unfold_search", "s": srch, "u": True, "x": True},
+                          {"op": "find_list", "l": L, "s": srch, "m": "find"},
+                          {"op": "sid_call", "from": {"s": rng.choice(L)}, "m": "match", "search": srch}])
+        for g in group:
+            ops += g
+        related.append(group)
+    v.c13_related = related
     return [o for o in ops if o]
 
 
@@ -120,6 +149,11 @@ def oracle_C13(run, n):
                 hist += [a, b]
         else:
             hist = [rng.choice(alpha) for _ in range(rng.randint(10, 50))]
+        for group in getattr(v, "c13_related", []):    # the or-search first, then its alternatives alone
+            if rng.random() < 0.6:
+                at = rng.randrange(len(hist) + 1)
+                ins = [rng.choice(group[0])] + [rng.choice(g) for g in group[1:]]
+                hist[at:at] = ins
         fresh = _fresh_answers(hist)
         stats["histories"] += 1
         stats["calls"] += len(hist)
@@ -242,6 +276,33 @@ def oracle_C20(run, n):
             stats["not_conventional"] += 1
             run.notes.append("generated configuration %d does not satisfy sidHierOk (generator bug): skipped" % idx)
             continue
+        # the loaded table is what the statement of C19 makes of the package: one type per level, named
+        # basetype + separator + level key (the generator knows the levels it wrote), each with a path
+        P, T, E, V, S = spec["project_key"], spec["type_key"], spec["leaf_key"], spec["version_key"], spec["state_key"]
+        labels = [l for l, _ in c["conf"]["sid"]["templates"]]
+        path_labels = [l for l, _ in c["conf"]["paths"][0]["templates"]]
+        missing = []
+        for bt in spec["basetypes"]:
+            for k in [l["key"] for l in bt["levels"]] + [V, S]:
+                name = "%s__%s" % (bt["name"], k)
+                if name not in labels:
+                    missing.append(name)
+                elif k != S and name not in path_labels:
+                    missing.append(name + " (no path template)")
+        if missing:
+            stats["spec_conformance_failures"] += 1
+            fails.append(("C20", {"seed": run.seed, "alt": idx, "spec_levels": missing},
+                          ["generated configuration %d (to_extrapolate=%r): the loaded sid templates %r lack a type for the levels %r" % (
+                              idx, c["raw"]["to_extrapolate"], labels, missing)]))
+            continue
+        e1, e2 = _c19_expected(c, [{"sep": c["conf"]["sid"]["sep"], "templates": c["raw"]["sid_templates"],
+                                    "to_extrapolate": c["raw"]["to_extrapolate"], "key_patterns": c["raw"]["key_patterns"]}])[0]
+        if e2 != [list(p) for p in c["raw"]["effective"]]:
+            stats["loader_disagreements"] += 1
+            fails.append(("C20", {"seed": run.seed, "alt": idx, "loader": True},
+                          ["generated configuration %d: the loaded sid templates %r are not the model's extrapolation + rewriting %r of the package" % (
+                              idx, c["raw"]["effective"], e2)]))
+            continue
         confs.append(c); envs.append(st); specs.append(idx)
     # kernel obligations for the first two generated configurations (all of them in the thorough tier)
     k = len(confs) if run.tier == "thorough" else min(2, len(confs))
@@ -308,6 +369,14 @@ def replay_C20(d, inp):
         i = core.run_impl([inp["op"]], st=st)[0]
         r = core.agree(inp["op"], m, i)
         return [r] if r else []
+    if "spec_levels" in inp:
+        labels = [l for l, _ in c["conf"]["sid"]["templates"]] + [l + " (path)" for l, _ in c["conf"]["paths"][0]["templates"]]
+        return ["missing level types: %r" % [m for m in inp["spec_levels"] if m.split(" ")[0] not in labels]] \
+            if any(m.split(" ")[0] not in labels for m in inp["spec_levels"]) else []
+    if "loader" in inp:
+        e1, e2 = _c19_expected(c, [{"sep": c["conf"]["sid"]["sep"], "templates": c["raw"]["sid_templates"],
+                                    "to_extrapolate": c["raw"]["to_extrapolate"], "key_patterns": c["raw"]["key_patterns"]}])[0]
+        return [] if e2 == [list(p) for p in c["raw"]["effective"]] else ["loaded %r vs model %r" % (c["raw"]["effective"], e2)]
     if "oracle" in inp:
         r = core.run_impl([{"op": "oracle", "prop": inp["oracle"], "input": inp["input"]}], st=st)[0]
         f = r.get("ok") if "ok" in r else [str(r)]
@@ -319,3 +388,121 @@ REPLAY["C20"] = replay_C20
 
 
 SPECIAL["C20"] = oracle_C20
+
+
+# ------------------------------------------------------------------------------------------ C19 (loader)
+
+import subprocess
+
+
+def _c19_triple(rng):
+    """templates / to_extrapolate of the C19 grammar plus selectors that tell an extrapolated type from
+    the type it was extrapolated from ('__shot' matches shot__shot but not shot__file, '__file' the reverse)"""
+    templates, to_ex, sep = families._mk_templates(rng)
+    keys = []
+    for _, t in templates:
+        for part in t.split("/"):
+            k = part.split(":")[0].strip("{}")
+            if k not in keys:
+                keys.append(k)
+    names = [n for n, _ in templates]
+    pool = [sep + k for k in keys] + names + [n.split(sep)[0] for n in names] + [sep + "file", "zz"]
+    kp = {}
+    for sel in rng.sample(pool, min(len(pool), rng.randint(1, 4))):
+        reps = {}
+        for _ in range(rng.randint(1, 3)):
+            k = rng.choice(keys)
+            reps["{%s}" % k] = "{%s:(%s|\\*|\\>)}" % (k, rng.choice(["a|b", "v\\d\\d\\d", "w|p", "sh\\d\\d"]))
+        kp[sel] = reps
+    return {"sep": sep, "templates": [list(p) for p in templates], "to_extrapolate": list(to_ex),
+            "key_patterns": [[k, [[a, b] for a, b in val.items()]] for k, val in kp.items()]}
+
+
+def _c19_load(triple):
+    """what the REAL loader (spil.conf.sid_conf_load, imported in a fresh interpreter) makes of the triple"""
+    st = _stage.stage(tag="c19")
+    with open(os.path.join(st["conf"], "spil_sid_conf.py"), "w") as f:
+        f.write("# generated sid configuration (C19 loader check)\nsip = '/'\nprojects = []\n")
+        f.write("sid_templates = %r\n" % {k: val for k, val in triple["templates"]})
+        f.write("to_extrapolate = %r\n" % triple["to_extrapolate"])
+        f.write("key_patterns = %r\n" % {k: {a: b for a, b in val} for k, val in triple["key_patterns"]})
+        f.write("extension_alias = {}\nkey_types = {}\nleaf_keys = {}\nbasetyped_search_narrowing = {}\ntyped_search_narrowing = {}\n")
+    code = ("import json, sys\nimport spil.conf.sid_conf_load as m\n"
+            "sys.stdout.write('@@' + json.dumps([[k, v] for k, v in m.sid_templates.items()]) + '\\n')\n")
+    p = subprocess.run([_stage.PY, "-W", "ignore", "-c", code], env=st["env"], capture_output=True, text=True, timeout=120)
+    import shutil
+    shutil.rmtree(st["dir"], ignore_errors=True)
+    for line in p.stdout.splitlines():
+        if line.startswith("@@"):
+            return json.loads(line[2:]), None
+    return None, (p.stderr or p.stdout)[-400:]
+
+
+def _c19_expected(d, triples):
+    ex = core.run_model(d, [{"op": "extrapolate_templates", "sep": t["sep"], "templates": t["templates"],
+                             "to_extrapolate": t["to_extrapolate"]} for t in triples])
+    rp = core.run_model(d, [{"op": "pattern_replacing", "templates": a.get("ok") or [], "key_patterns": t["key_patterns"]}
+                            for a, t in zip(ex, triples)])
+    return [(a.get("ok"), b.get("ok")) for a, b in zip(ex, rp)]
+
+
+def _c19_judge(triple, loaded, extrapolated, expected):
+    if loaded is None or expected is None:
+        return []
+    if [list(p) for p in loaded] == [list(p) for p in expected]:
+        return []
+    out = []
+    sels = [k for k, _ in triple["key_patterns"]]
+    got, want, plain = dict(map(tuple, loaded)), dict(map(tuple, expected)), dict(map(tuple, extrapolated or []))
+    if list(got.keys()) != list(want.keys()):
+        out.append("the loaded configuration has the types %r, extrapolation of the configured templates gives %r" % (list(got.keys()), list(want.keys())))
+    for k in want:
+        if k in got and got[k] != want[k]:
+            matching = [s for s in sels if s in k]
+            if not matching:
+                out.append("type %r matches no selector of key_patterns, yet its loaded template %r is not the extrapolated %r" % (k, got[k], plain.get(k)))
+            else:
+                out.append("type %r matches the selectors %r: its loaded template is %r, the rewriting of %r gives %r" % (k, matching, got[k], plain.get(k), want[k]))
+    return out or ["loaded templates %r differ from %r" % (loaded, expected)]
+
+
+def oracle_C19L(run, n):
+    """the loader composes the two functions as the statement reads: every type produced by the
+    extrapolation (explicit or generated) is rewritten exactly when a selector matches ITS name"""
+    fails = []
+    stats = collections.Counter()
+    rng = random.Random("%s/C19L" % run.seed)
+    triples = [_c19_triple(rng) for _ in range(n)]
+    with cf.ThreadPoolExecutor(max_workers=12) as ex:
+        loaded = list(ex.map(_c19_load, triples))
+    expected = _c19_expected(run.d, triples)
+    for t, (l, err), (e1, e2) in zip(triples, loaded, expected):
+        stats["configurations"] += 1
+        if l is None:
+            stats["loader_refused"] += 1
+            continue
+        if any(s in k for s, _ in t["key_patterns"] for k, _ in (e1 or []) if k not in dict(map(tuple, t["templates"]))):
+            stats["selector_matches_generated_type"] += 1
+        f = _c19_judge(t, l, e1, e2)
+        if f:
+            stats["failing"] += 1
+            fails.append(("C19L", t, f))
+        else:
+            run.nontrivial.add(core.digest(t))
+    run.cov["evaluations"] += len(triples)
+    run.cov["oracles"]["C19L"] = dict(stats)
+    if triples:
+        run.cov["samples"].append({"oracle": "C19L", "input": triples[0], "loaded": loaded[0][0]})
+    return fails
+
+
+def replay_C19L(d, inp):
+    l, err = _c19_load(inp)
+    if l is None:
+        return ["the loader refuses the configuration: %s" % err]
+    (e1, e2), = _c19_expected(d, [inp])
+    return _c19_judge(inp, l, e1, e2)
+
+
+SPECIAL["C19L"] = oracle_C19L
+REPLAY["C19L"] = replay_C19L
